@@ -7,7 +7,8 @@
     selects nothing; the parent of an attribute is its element), D23 ($v is an error), D24
     (processing-instruction('t')), D25 (id()), D27 (union sorts), D29 (numeric predicate compares
     numbers), D50 (stacks popped before an error is propagated), D55 (attributes have no
-    children), the absolute path from a namespace node, unary minus once per sign, the repaired
+    children), the de-duplication of the node list after every step of a relative location path
+    (d31a0ff), the absolute path from a namespace node, unary minus once per sign, the repaired
     scalar library (Model/XPathFuncs.v) and the dom's sibling lookup by id (D21) / PI keys (D18).
     Still modelled as found: sorting and de-duplication BY ORDER KEY (so the D19 key collisions of
     namespace nodes and DTD-default attributes conflate nodes).
@@ -119,6 +120,20 @@ Fixpoint dedup_keys (seen : list N) (l : list node) : list node :=
 
 (** what [eval_union_expr] does to the collected nodes *)
 Definition union_finish (l : list node) : list node := sort_by_key (dedup_keys [] l).
+
+(** what [eval_loc_expr] does to the nodes collected by one step (fix of the exponential growth of
+    [a/../a/..]): [collected.retain(|v| { let order = v.order(); order == 0 || set.insert(order) })]
+    -- the first node of every non-zero key is kept, nodes with key 0 are never dropped *)
+Fixpoint step_dedup_from (seen : list N) (l : list node) : list node :=
+  match l with
+  | [] => []
+  | x :: t =>
+      if key doc x =? 0 then x :: step_dedup_from seen t
+      else if existsb (N.eqb (key doc x)) seen then step_dedup_from seen t
+      else x :: step_dedup_from (key doc x :: seen) t
+  end.
+
+Definition step_dedup (l : list node) : list node := step_dedup_from [] l.
 
 (** ** conversions of values ([TryFrom<&Value>]); node-sets go through the string-value of the
     first node, which may fail *)
@@ -892,7 +907,7 @@ with eval_stepops (l : stepop_list) (nodes : list node) {struct l} : M (list nod
                     | LpDescendantOrSelfNode => flat_map_res descendant_and_self nodes
                     end) ;;
       collected <- flat_map_m (eval_step s) from ;;
-      eval_stepops t collected
+      eval_stepops t (step_dedup collected)
   end
 
 (** eval_step_expr and eval_axis_node_test *)
